@@ -337,6 +337,9 @@ fn enum_batch(ctx: &mut Ctx, id: u64, len: usize, prefix_index: u64, pre: &[u8],
         }
         buf.extend_from_slice(post);
         ctx.evals += 1;
+        if ctx.want_sample() {
+            ctx.note_sample(Case::new("one").arg(&buf));
+        }
         check_input(ctx, &buf, len <= 3);
         // increment the free positions
         let mut j = fixed;
